@@ -145,11 +145,9 @@ class AcceptorModel:
             self.reply = {}
             for k, attr in ((0, "role.scu_role"), (1, "role.scp_role")):
                 v = e.get(attr)
-                # `False if not rq_roles[k] else True`
-                if isinstance(v, ast.IfExp) and norm(v.test) == f"not rq_roles[{k}]" and _const(v.body) is False and _const(v.orelse) is True:
-                    self.reply[k] = ("mask-not", None)
-                else:
-                    raise AnalysisError(f"{fname}: reply expression shape: {norm(v) if v is not None else None}")
+                if v is None:
+                    raise AnalysisError(f"{fname}: {attr} is not assigned in the role branch")
+                self.reply[k] = self._unres_reply(v, k)
             self.reply_node = ifs[0]
             # no-role rejection (after the role branch, inside the loop)
             self.norole_result = None
@@ -165,20 +163,46 @@ class AcceptorModel:
 
     @staticmethod
     def _reply_masks(block, acobj):
+        """`if rq_roles[k] is <C>: role.X = <v1> else: role.X = <v2>` -> (C, v1, v2) with
+        v in {('const', c), ('setting', 'scu_role'|'scp_role')}"""
+        def val(e):
+            e = strip_cast(e)
+            if isinstance(e, ast.Constant):
+                return ("const", e.value)
+            t = norm(e)
+            if t in (f"{acobj}.scu_role", f"{acobj}.scp_role"):
+                return ("setting", t.split(".")[1])
+            raise AnalysisError(f"reply value not modelled: {t}")
+
         out = {}
         for k, attr in ((0, "scu_role"), (1, "scp_role")):
-            ifs = [i for i in block.body if isinstance(i, ast.If) and norm(i.test) == f"rq_roles[{k}] is False"]
+            ifs = [i for i in block.body if isinstance(i, ast.If) and isinstance(i.test, ast.Compare) and norm(i.test.left) == f"rq_roles[{k}]" and isinstance(i.test.ops[0], (ast.Is, ast.Eq)) and isinstance(i.test.comparators[0], ast.Constant)]
             if len(ifs) != 1:
                 raise AnalysisError(f"reply mask for {attr}: shape changed")
             t = [s for s in ifs[0].body if isinstance(s, ast.Assign) and norm(s.targets[0]) == f"role.{attr}"]
             f = [s for s in ifs[0].orelse if isinstance(s, ast.Assign) and norm(s.targets[0]) == f"role.{attr}"]
-            if len(t) != 1 or len(f) != 1 or _const(t[0].value) is not False:
+            if len(t) != 1 or len(f) != 1:
                 raise AnalysisError(f"reply mask for {attr}: branch bodies changed")
-            src = norm(f[0].value)
-            if src not in (f"{acobj}.scu_role", f"{acobj}.scp_role"):
-                raise AnalysisError(f"reply source for {attr}: {src}")
-            out[k] = ("mask-false", src.split(".")[1])
+            out[k] = (ifs[0].test.comparators[0].value, val(t[0].value), val(f[0].value))
         return out
+
+    @staticmethod
+    def _unres_reply(v, k):
+        """-> function of the proposed role (bool) giving the replied role"""
+        v = strip_cast(v)
+        if isinstance(v, ast.Constant):
+            c = v.value
+            return lambda r: c
+        if isinstance(v, ast.IfExp) and isinstance(strip_cast(v.body), ast.Constant) and isinstance(strip_cast(v.orelse), ast.Constant):
+            b, o = strip_cast(v.body).value, strip_cast(v.orelse).value
+            t = norm(v.test)
+            if t == f"not rq_roles[{k}]":
+                return lambda r: b if not r else o
+            if t == f"rq_roles[{k}]":
+                return lambda r: b if r else o
+        if norm(v) in (f"rq_roles[{k}]", f"bool(rq_roles[{k}])"):
+            return lambda r: bool(r)
+        raise AnalysisError(f"negotiate_unrestricted: reply expression shape: {norm(v)}")
 
     # -- decision ---------------------------------------------------------------
     def decide(self, table, proposal, setting):
@@ -201,7 +225,11 @@ class AcceptorModel:
             reply = None
             if result == 0 and has_role:
                 vals = {"scu_role": setting[0], "scp_role": setting[1]}
-                reply = tuple(False if rq[k] is False else vals[self.reply[k][1]] for k in (0, 1))
+
+                def rv(v):
+                    return v[1] if v[0] == "const" else vals[v[1]]
+
+                reply = tuple(rv(self.reply[k][1]) if rq[k] is self.reply[k][0] else rv(self.reply[k][2]) for k in (0, 1))
             return dict(result=result, as_scu=as_scu, as_scp=as_scp, reply=reply)
         # unrestricted
         result = self.accept_result
@@ -210,7 +238,7 @@ class AcceptorModel:
         if proposal is not None:
             oc = table[proposal][self.fixed_setting]
             as_scu, as_scp = oc[self.idx[0]], oc[self.idx[1]]
-            reply = tuple(False if not proposal[k] else True for k in (0, 1))
+            reply = tuple(self.reply[k](proposal[k]) for k in (0, 1))
         if self.norole_result is not None and self.norole_in_section and as_scu is False and as_scp is False:
             result = self.norole_result
         return dict(result=result, as_scu=as_scu, as_scp=as_scp, reply=reply)
@@ -255,16 +283,20 @@ class RequestorModel:
 
 
 def wire_normalisation(repo: Repo):
-    """SCP_SCU_RoleSelectionSubItem.from_primitive: None -> False, int(); to_primitive: bool()"""
+    """SCP_SCU_RoleSelectionSubItem.from_primitive: None -> <const>, int(); to_primitive: bool().
+    -> (shape_ok, node, (value put on the wire for an unset scu role, ... scp role))"""
     fp = repo.func("pdu_items", "SCP_SCU_RoleSelectionSubItem.from_primitive")
     tp = repo.func("pdu_items", "SCP_SCU_RoleSelectionSubItem.to_primitive")
-    ok = True
+    consts = []
     for attr in ("scu_role", "scp_role"):
         ifs = [i for i in walk_no_nested(fp) if isinstance(i, ast.If) and norm(i.test) == f"primitive.{attr} is not None"]
         if len(ifs) != 1:
-            return False, fp
+            raise AnalysisError(f"SCP_SCU_RoleSelectionSubItem.from_primitive: {attr} shape changed")
         t = [norm(s) for s in ifs[0].body]
-        f = [norm(s) for s in ifs[0].orelse]
-        ok = ok and t == [f"self.{attr} = int(primitive.{attr})"] and f == [f"self.{attr} = False"]
-        ok = ok and any(norm(s) == f"primitive.{attr} = bool(self.{attr})" for s in walk_no_nested(tp) if isinstance(s, ast.stmt))
-    return ok, fp
+        f = [s for s in ifs[0].orelse if isinstance(s, ast.Assign) and norm(s.targets[0]) == f"self.{attr}"]
+        if t != [f"self.{attr} = int(primitive.{attr})"] or len(f) != 1 or not isinstance(f[0].value, ast.Constant):
+            raise AnalysisError(f"SCP_SCU_RoleSelectionSubItem.from_primitive: {attr} branch bodies changed")
+        consts.append(bool(f[0].value.value))
+        if not any(norm(s) == f"primitive.{attr} = bool(self.{attr})" for s in walk_no_nested(tp) if isinstance(s, ast.stmt)):
+            raise AnalysisError(f"SCP_SCU_RoleSelectionSubItem.to_primitive: {attr} is not decoded as bool()")
+    return consts == [False, False], fp, tuple(consts)
